@@ -716,6 +716,185 @@ def purity_at_call_sites(d, ctx):
 
 
 # ---------------------------------------------------------------------------
+# Part A'' - history freedom at every call site of the other property modules
+# ---------------------------------------------------------------------------
+# "Results are a function of the arguments and the NumPy seed only": the host
+# sub-checks of C01..C19 are reused once more.  In a pristine copy of the
+# library (pbv.freshlib: module-level tables, class attributes and memoised
+# functions as in a new interpreter) one or two drawn hosts run first - the
+# history: other trainers, options, dimensions, dtypes - and then the final
+# host; in a second pristine copy the final host runs alone with the same
+# choices.  Every library call of the final host must return the same in both.
+
+class _SubDraw(__import__('pbv.core', fromlist=['_DrawBase'])._DrawBase):
+    """draws through the parent (which records them for the replay of the
+    whole case) and keeps the own list, from which the final host is re-run"""
+
+    def __init__(self, parent):
+        super().__init__()
+        self._p = parent
+
+    def _int(self, lo, hi):
+        return self._p.int(lo, hi)
+
+    def _float(self, lo, hi):
+        return self._p.float(lo, hi)
+
+    def _ints(self, n, hi):
+        return self._p.ints(n, hi)
+
+    def seed(self):
+        v = self._p.seed()
+        self.choices.append(['s', int(v), 0])
+        return int(v)
+
+
+class _RecordingCtx:
+    """stands in for core.Ctx: records what every library call returned"""
+
+    def __init__(self, d):
+        from pbv.core import Ctx
+        self.real = Ctx(d)
+        self.real.value_protocol = False
+        self.trace = []
+
+    def label(self, *a):
+        pass
+
+    def nontrivial(self, flag=True):
+        pass
+
+    def describe(self, **kw):
+        pass
+
+    def keep(self, **kw):
+        pass
+
+    def lib(self, fn, *args, allow=(), allow_if=None, clause='raises', **kwargs):
+        from pbv.core import Ctx
+        name = _entry_name(fn)
+        try:
+            r = Ctx.lib(self.real, fn, *args, allow=allow, allow_if=allow_if,
+                        clause=clause, **kwargs)
+        except (Violation, Rejected, Borderline) as e:
+            self.trace.append((name, ['raises', type(e).__name__]))
+            raise
+        self.trace.append((name, _fresh(canon(r), {})))
+        return r
+
+
+def _run_host(sc, d, rec):
+    try:
+        sc.fn(d, rec)
+        return 'ok'
+    except Violation:
+        return 'violation'
+    except Rejected:
+        return 'rejected'
+    except Borderline:
+        return 'borderline'
+
+
+def _max_rel_dev(a, b):
+    """largest deviation of two canonical results relative to the magnitude of
+    the array it occurs in; None when they differ in structure"""
+    if isinstance(a, dict):
+        if not (isinstance(b, dict) and a.keys() == b.keys()):
+            return None
+        devs = [_max_rel_dev(a[k], b[k]) for k in a]
+    elif isinstance(a, list):
+        if not (isinstance(b, list) and len(a) == len(b)):
+            return None
+        devs = [_max_rel_dev(x, y) for x, y in zip(a, b)]
+    elif isinstance(a, np.ndarray) or isinstance(b, np.ndarray):
+        x, y = np.asarray(a), np.asarray(b)
+        if x.shape != y.shape or x.dtype != y.dtype:
+            return None
+        if x.dtype.kind not in 'fc':
+            return 0.0 if np.array_equal(x, y) else None
+        fin = np.isfinite(x) & np.isfinite(y)
+        if not np.array_equal(np.isfinite(x), np.isfinite(y)) or \
+                not np.array_equal(x[~fin], y[~fin], equal_nan=True):
+            return None
+        if not fin.any():
+            return 0.0
+        scale = max(float(np.max(np.abs(x[fin]))), float(np.max(np.abs(y[fin]))), 1e-300)
+        return float(np.max(np.abs(x[fin] - y[fin]))) / scale
+    elif isinstance(a, (float, complex, np.floating, np.complexfloating)) and \
+            isinstance(b, (float, complex, np.floating, np.complexfloating)):
+        if a != a and b != b:
+            return 0.0
+        if not (np.isfinite(a) and np.isfinite(b)):
+            return 0.0 if a == b else None
+        return abs(a - b) / max(abs(a), abs(b), 1e-300)
+    else:
+        return 0.0 if a == b else None
+    if any(v is None for v in devs):
+        return None
+    return max(devs, default=0.0)
+
+
+@subcheck(SUBCHECKS, 'history_at_call_sites', quick=480, thorough=8000,
+          shards_quick=16, shards_thorough=16)
+def history_at_call_sites(d, ctx):
+    from pbv.core import ReplayDraw
+    from pbv.freshlib import pristine_library
+    table = _host_table()
+
+    def pick():
+        pid, slots = table[d.int(0, len(table) - 1)]
+        return pid, slots[d.int(0, len(slots) - 1)]
+
+    fpid, fsc = pick()
+    hist = []
+    for _ in range(d.int(1, 2)):
+        # the history is made of the final host itself with other draws (same
+        # entry points, other options / sizes / dtypes) or of any other host
+        hist.append((fpid, fsc) if d.int(0, 2) > 0 else pick())
+    state = np.random.get_state()
+    with pristine_library():
+        for _, sc in hist:
+            _run_host(sc, _SubDraw(d), _RecordingCtx(d))
+        sub = _SubDraw(d)
+        rec_a = _RecordingCtx(sub)
+        np.random.seed(0)
+        verdict_a = _run_host(fsc, sub, rec_a)
+    with pristine_library():
+        rep = ReplayDraw(sub.choices)
+        rec_b = _RecordingCtx(rep)
+        np.random.seed(0)
+        verdict_b = _run_host(fsc, rep, rec_b)
+    np.random.set_state(state)
+    host = f'{fpid}.{fsc.name}'
+    ctx.describe(final=host, history=[f'{p}.{s.name}' for p, s in hist],
+                 library_calls=len(rec_b.trace), host_verdict=verdict_b)
+    ctx.label('host=' + fpid, 'same-host-history' if any(s is fsc for _, s in hist)
+              else 'other-host-history')
+    worst = 0.0
+    for i, (xb, xa) in enumerate(zip(rec_b.trace, rec_a.trace)):
+        (nb, rb), (na, ra) = xb, xa
+        dev = _max_rel_dev(rb, ra) if nb == na else None
+        if dev is None or dev > 1e-6:
+            raise Violation(
+                'result-depends-on-what-ran-before',
+                f'call {i} of {host} ({nb}): after the history '
+                f'{[f"{p}.{s.name}" for p, s in hist]} the result differs from that '
+                f'of a pristine library (' +
+                ('structure / exception' if dev is None else f'relative deviation {dev:.2e}')
+                + ')', entry=nb)
+        worst = max(worst, dev)
+    require(len(rec_a.trace) == len(rec_b.trace) and verdict_a == verdict_b,
+            'result-depends-on-what-ran-before',
+            f'{host}: {len(rec_a.trace)} calls / {verdict_a} after the history, '
+            f'{len(rec_b.trace)} calls / {verdict_b} in a pristine library')
+    if worst > 0:
+        # not bit-identical but at rounding level (kernels that depend on the
+        # address of a buffer): not judged
+        ctx.label('rounding-level-difference')
+    ctx.nontrivial(len(rec_b.trace) > 0)
+
+
+# ---------------------------------------------------------------------------
 # Part B - history freedom (Hypothesis stateful)
 # ---------------------------------------------------------------------------
 
@@ -1097,6 +1276,87 @@ def split_fit_generated(d, ctx):
                             f'n={n} parts={parts} {key}: max diff '
                             f'{np.max(np.abs(a[key] - b[key])):.3e}', kind='cacgmm')
     ctx.nontrivial(n_parts >= 2)
+
+
+def _trainer_kwargs(d, kind, D):
+    kw = {}
+    if kind in ('watson', 'cwmm'):
+        mc = d.choice([None, 500, 100, 20, 5])
+        if mc:
+            kw['max_concentration'] = mc
+        sm = d.choice([None, None, 1000, 300, 50, 2000])
+        if sm:
+            kw['spline_markers'] = sm
+        if d.int(0, 3) == 0:
+            kw['dimension'] = D
+    if kind in ('bingham', 'cbmm'):
+        mc = d.choice([None, 500.0, 100.0])
+        if mc:
+            kw['max_concentration'] = mc
+        if kind == 'cbmm' and d.int(0, 2) == 0:
+            kw['eigenvalue_eps'] = d.choice([1e-8, 1e-6])
+    return kw
+
+
+@subcheck(SUBCHECKS, 'fresh_library_trainers', quick=400, thorough=6000)
+def fresh_library_trainers(d, ctx):
+    """a trainer built with any constructor arguments gives, after other
+    trainer objects (of the same or a related class, with the same or other
+    constructor arguments and feature dimension) have been built and used, what
+    it gives in a pristine copy of the library (pbv.freshlib)."""
+    from pbv.freshlib import pristine_library
+    family = d.choice(['watson', 'watson', 'bingham', 'plain'])
+    kinds = {'watson': ['watson', 'cwmm'], 'bingham': ['bingham', 'cbmm'],
+             'plain': ['cacgmm', 'gmm', 'vmfmm', 'gcacgmm', 'vmfcacgmm']}[family]
+    D = d.int(2, 4) if family != 'bingham' else d.int(2, 3)
+
+    def draw_step(kind, D_, conc):
+        K = 2
+        return dict(op='fit', seed=d.int(0, 10 ** 6), D=D_, K=K, N=4 * D_ + 8,
+                    iterations=d.int(1, 2 if family == 'bingham' else 3),
+                    saliency=d.bool(), wca=None, norm=None, ctype=None,
+                    F=3 if kind in mm.INTEGRATION else None, aligner=False,
+                    concentrated=conc)
+
+    history = []
+    for _ in range(d.int(1, 3)):
+        hk = d.choice(kinds)
+        hD = D if d.int(0, 2) > 0 else d.int(2, 3 if family == 'bingham' else 5)
+        history.append((hk, _trainer_kwargs(d, hk, hD), draw_step(hk, hD, d.bool())))
+    fk = d.choice(kinds)
+    final_kw = _trainer_kwargs(d, fk, D)
+    final = draw_step(fk, D, d.bool())
+
+    def run(kind, kw, st_):
+        np.random.seed(st_['seed'] % 2 ** 31)
+        try:
+            return canon(run_step(kind, make_trainer(kind, kw), st_))
+        except Exception as e:  # noqa
+            return ['raises', type(e).__name__]
+
+    state = np.random.get_state()
+    with pristine_library():
+        for hk, kw, st_ in history:
+            run(hk, kw, st_)
+        after = run(fk, final_kw, final)
+    with pristine_library():
+        alone = run(fk, final_kw, final)
+    np.random.set_state(state)
+    ctx.describe(final=[fk, final_kw, final['D']],
+                 history=[[hk, kw, st_['D']] for hk, kw, st_ in history])
+    ctx.label(fk, f'history={len(history)}',
+              'same-class-in-history' if any(hk == fk for hk, _, _ in history) else
+              'related-class-in-history')
+    dev = _max_rel_dev(alone, after)
+    if dev is None or dev > 1e-6:
+        raise Violation(
+            'result-depends-on-what-ran-before',
+            f'{fk}({final_kw}) D={D} after {[[hk, kw, st_["D"]] for hk, kw, st_ in history]}: '
+            + ('structure / exception differs' if dev is None else f'relative deviation {dev:.2e}'),
+            kind=fk)
+    if dev > 0:
+        ctx.label('rounding-level-difference')
+    ctx.nontrivial(not (isinstance(alone, list) and alone[:1] == ['raises']))
 
 
 @subcheck(SUBCHECKS, 'fresh_process_agreement', quick=16, thorough=160,
